@@ -136,6 +136,64 @@ theorem padding_shape :
     bytesToSignBody = ["if len(b) == 65 { var r, s big.Int br := b[:32] r = *r.SetBytes(br) sr := b[32:64] s = *s.SetBytes(sr) recid := b[64] return &Sign{r, s, recid} } else { return nil }"] :=
   ⟨rfl, rfl, rfl, rfl, rfl⟩
 
+/-- Shared state on the verification path (hardening classes 3c, 5, 7): no function on the path
+    assigns a package-level variable or calls a store; the only fork flag read is
+    `IsProposal001` (through `common.ChainId`); the package-level reads are the logger, the
+    error values, `big8`, the chain configuration (`LocalChainConfig`, `Genesis`) and the two
+    hasher pools; the only caches are the per-object `hash`/`from` atomics of a freshly
+    decoded `eth_tx.Transaction`.  A new cache, a `sync.Once`, a new flag read or a store
+    call on the path changes this list. -/
+theorem path_shared_state :
+    pathSharedState = [
+      ("service.TxPool.VerifyTransaction", "", "txPoolLogger", "", "", ""),
+      ("service.verifyTxChainId", "", "ErrChainId,txPoolLogger", "", "", ""),
+      ("service.verifyTransactionHash", "", "ErrHash,txPoolLogger", "", "", ""),
+      ("service.verifyTransactionSign", "", "ErrSign,txPoolLogger", "", "", ""),
+      ("service.verifyETHTx", "", "ErrIllegal,ErrNil,txPoolLogger", "", "", ""),
+      ("service.compareTx", "", "", "", "", ""),
+      ("types.Transaction.GenHash", "", "", "", "", ""),
+      ("eth_tx.ConvertTx", "", "", "", "", ""),
+      ("eth_tx.Transaction.Hash", "", "", "", "", "tx.hash.Load,tx.hash.Store"),
+      ("eth_tx.rlpHash", "", "hasherPool", "", "", "hasherPool.Get,hasherPool.Put"),
+      ("eth_tx.isProtectedV", "", "", "", "", ""),
+      ("eth_tx.Sender", "", "", "", "", "tx.from.Load,tx.from.Store"),
+      ("eth_tx.EIP155Signer.Sender", "", "ErrInvalidChainId,big8", "", "", ""),
+      ("eth_tx.HomesteadSigner.Sender", "", "", "", "", ""),
+      ("eth_tx.EIP155Signer.Hash", "", "", "", "", ""),
+      ("eth_tx.NewEIP155Signer", "", "", "", "", ""),
+      ("eth_tx.recoverPlain", "", "ErrInvalidSig", "", "", ""),
+      ("eth_tx.deriveChainId", "", "", "", "", ""),
+      ("common.ChainId", "", "LocalChainConfig", "IsProposal001", "", ""),
+      ("common.GetChainId", "", "Genesis", "", "", ""),
+      ("common.IsProposal001", "", "LocalChainConfig", "isForked", "", ""),
+      ("common.Sha256", "", "hasherPool", "", "", "hasherPool.Get,hasherPool.Put"),
+      ("common.Sign.RecoverPubkey", "", "", "", "", ""),
+      ("common.Sign.Bytes", "", "", "", "", ""),
+      ("common.PublicKey.Verify", "", "", "", "", ""),
+      ("common.PublicKey.GetAddress", "", "", "", "", ""),
+      ("common.PublicKey.GetID", "", "", "", "", ""),
+      ("common.BytesToPublicKey", "", "", "", "", ""),
+      ("common.FromHex", "", "", "", "", ""),
+      ("common.ToHex", "", "", "", "", "")] := rfl
+
+/-- no function on the path writes a package-level variable or calls a store; the only fork
+    flag is `IsProposal001` (via `isForked`) -/
+theorem path_writes_nothing :
+    pathSharedState.all (fun e => e.2.1 == "" && e.2.2.2.2.1 == "" &&
+      (e.2.2.2.1 == "" || e.2.2.2.1 == "IsProposal001" || e.2.2.2.1 == "isForked")) = true := by decide
+
+/-- The built-in chain configurations (the only inputs of `chainIdStr`): main net switches
+    its chain id 8888 → 2025 at height 894116; the others never switch. -/
+theorem chain_configs :
+    chainConfigs = ["mainNetChainConfig ChainId='2025' OriginalChainId='8888' Proposal001Block=894116",
+      "robinChainConfig ChainId='9527' OriginalChainId='9527' Proposal001Block=0",
+      "devNetChainConfig ChainId='9500' OriginalChainId='9500' Proposal001Block=0",
+      "subNetChainConfig ChainId='9500' OriginalChainId='9500' Proposal001Block=0"] ∧
+    chainConfigSelection = ["devNetChainConfig",
+      "mainNetChainConfig",
+      "robinChainConfig",
+      "subNetChainConfig"] := ⟨rfl, rfl⟩
+
 theorem signer_call_order :
     eip155SenderCalls = ["tx.Protected", "HomesteadSigner{}.Sender", "tx.ChainId().Cmp", "tx.ChainId",
       "new(big.Int).Sub", "new", "V.Sub", "recoverPlain", "s.Hash"] ∧
